@@ -308,6 +308,10 @@ pub fn c13_locks(known: &Known) -> SessionScenario {
             lines.push((sess, Line::Msg(m)));
         }
     }
+    // a key nested below the contended one: its lock and its queue live in the same tree
+    lines.push((1, Line::Msg(CM::Lock(Lock { transaction_id: 251, key: s("l/x") }))));
+    lines.push((1, Line::Msg(CM::ReleaseLock(Lock { transaction_id: 252, key: s("l/x") }))));
+    lines.push((2, Line::Msg(CM::AcquireLock(Lock { transaction_id: 351, key: s("l/x") }))));
     SessionScenario {
         property: "C13".into(),
         clients: vec![0, 1, 2],
